@@ -540,6 +540,10 @@ func (f *frame) execTypeAssert(x *ssa.TypeAssert) {
 		pred := quote("implements " + typeKey(x.AssertedType))
 		c.decl("impl "+pred, fmt.Sprintf("(declare-fun %s (Int) Bool)", pred))
 		ok = and(not(eq(v, tNil)), mk(SBool, pred, mk(SInt, "typeof", v)))
+		if ai, isI := types.Unalias(x.AssertedType).Underlying().(*types.Interface); isI && types.Implements(x.X.Type(), ai) {
+			// the static type already implements the asserted interface: only nil-ness is checked
+			ok = not(eq(v, tNil))
+		}
 		if dt, known := f.dynType[x.X]; known {
 			if types.Implements(dt, types.Unalias(x.AssertedType).Underlying().(*types.Interface)) {
 				ok = not(eq(v, tNil))
